@@ -281,7 +281,7 @@ def k6(cx):
     once); OpenCL must launch a global size of exactly n (the generated OpenCL body has no guard)."""
     from ..peval import Interp, Obj as _Obj, Opaque as _Op, Builtin as _B, PyExc as _PyExc
     m = cx.m
-    NS = (1, 2, 7, 8, 9, 63, 64, 65, 1000, 1024, 1025)
+    NS = (0, 1, 2, 7, 8, 9, 63, 64, 65, 1000, 1024, 1025)
     ncase = 0
     for spec, kind in (("context_cupy::KernelCupy", "cuda"), ("context_pyopencl::KernelPyopencl", "opencl")):
         fnode = m.func(spec + ".__call__")
@@ -308,9 +308,11 @@ def k6(cx):
                         res = I.explore(lambda: I.call(I.getattr(me, "__call__"), [], {"x": _Op("xdata"), "n": (nthr if named else 5)}), max_paths=8)
                     except AnalysisError as e:
                         cx.recog(False, fnode, f"{spec}.__call__: {e}")
+                    ncase += 1
+                    if nthr == 0 and len(res) == 1 and not launches:
+                        continue  # nothing to run, nothing launched
                     cx.recog(len(res) == 1 and res[0]["exc"] is None and len(launches) == 1, fnode, f"{spec}.__call__(n={nthr}): not one launch on one normal path ({res[0]['exc'] if res else ''})")
                     a, k = launches[0]
-                    ncase += 1
                     if kind == "cuda":
                         wantg = -(-nthr // block)
                         grid = a[0] if a else k.get("grid")
